@@ -9,7 +9,8 @@ LEVEL_TEXT = ('bounded: every one of the 25 documented preferences alone (each n
 LEVEL_NOTE = ('the expected effect of every preference is a function on the public-accessor projection written from the Preferences docstring (bounded/c06.py, quoted there); Property.valid and '
               'CSSImportRule.hreftype are taken from the DOM as the definition of "valid"/"hreftype"; DOMs whose default round trip is not clean belong to C02/C03 and are left out; '
               'blind to preference values outside the tried ones (3 indents, 2-3 spacer strings) and to sheets beyond the generator bound; eight recorded deviations (known/C06.json)')
-TECHNIQUE = 'bounded run-time contracts on the real serializer over preference assignments x generated DOMs (reference effects on the abstract projection, independent token-level reader)'
+TECHNIQUE = ('complete syntactic frame lemmas on the real serializer source (every preference read is assigned by useDefaults; the serializer keeps no other state); the statement as a whole is '
+             'decided by bounded run-time contracts on the real serializer over preference assignments x generated DOMs (reference effects on the abstract projection, independent token-level reader)')
 DESIGN_REF = 'DESIGN.md section 3, C06 (T2 clause); Appendix C "Abstract sheets"'
 
 
@@ -18,3 +19,9 @@ def bounded(ctx):
     c06.frame(ctx)
     c06.matrix(ctx)
     c06.witnesses(ctx)
+
+
+# T1-finite: the preference frame of the serializer, derived from the AST of the real source on every run (contracts/serialize_frame.py)
+def lemmas(ctx):
+    from contracts import serialize_frame as SF
+    SF.lemmas(ctx)
